@@ -756,6 +756,15 @@ class Exec:
             if isinstance(tgt, NdArr):
                 self._havoc_cell(tgt, ast.unparse(ex))
         attr_mods = mutated_attrs(st.body)
+        # entries d["const"] of a concrete dict that the body re-assigns: only those entries are havoced
+        saved_entries = []
+        for b, keys_ in sorted(mutated_dict_entries(st.body).items()):
+            d = self.lookup_local(b, fr)
+            if isinstance(d, dict) and keys_ is not None and all(k_ in d for k_ in keys_):
+                heap_mods.discard(b)
+                for k_ in sorted(keys_, key=repr):
+                    saved_entries.append((d, k_, d[k_]))
+                    d[k_] = self.havoc_value("%s[%r]" % (b, k_), d[k_], rebind=True)
         self.havoc(fr, mods, heap_mods - {b for b, _ in attr_mods if self._is_obj(b, fr)}, pre)
         for b, attr in sorted(attr_mods):
             o = self.lookup_local(b, fr)
@@ -773,6 +782,8 @@ class Exec:
             # the first iteration from the real entry state (no havoc): its safety obligations, unbound
             # locals, writes through aliases of the entry state.  Ends after one body execution.
             self.restore_env(fr, pre, mods, heap_mods, attr_mods)
+            for d_, k_, v_ in saved_entries:
+                d_[k_] = v_
             if seq is not None:
                 self.assume(z(seq.length) > 0)
                 L.k = 0
@@ -1775,6 +1786,40 @@ def mutated_names(body):
                 b = base_name(n.func.value)
                 if b:
                     out.add(b)
+    return out
+
+
+def mutated_dict_entries(body):
+    """name -> set of constant keys for subscript stores name[const] (= / op=) in the body; None if the name is also written
+    through a non-constant subscript, an attribute or a mutator call"""
+    out = {}
+
+    def base_name(t):
+        while isinstance(t, (ast.Subscript, ast.Attribute)):
+            t = t.value
+        return t.id if isinstance(t, ast.Name) else None
+
+    for st in body:
+        for n in [st] + list(walk_no_nested_stmt(st)):
+            tg = []
+            if isinstance(n, ast.Assign):
+                tg = n.targets
+            elif isinstance(n, ast.AugAssign):
+                tg = [n.target]
+            for t in tg:
+                for x in ([t] if not isinstance(t, (ast.Tuple, ast.List)) else t.elts):
+                    if isinstance(x, ast.Subscript) and isinstance(x.value, ast.Name) and isinstance(x.slice, ast.Constant) \
+                            and isinstance(x.slice.value, (str, int)):
+                        if out.get(x.value.id, set()) is not None:
+                            out.setdefault(x.value.id, set()).add(x.slice.value)
+                    elif isinstance(x, (ast.Subscript, ast.Attribute)):
+                        b = base_name(x)
+                        if b:
+                            out[b] = None
+            if isinstance(n, ast.Call) and isinstance(n.func, ast.Attribute) and n.func.attr in MUTATORS:
+                b = base_name(n.func.value)
+                if b:
+                    out[b] = None
     return out
 
 
